@@ -497,7 +497,7 @@ def gen_spec(rng, template: str, ver: Optional[int] = None) -> dict:
                  "pads": rng.choice([None, [1, 1, 1, 1], [0, 1, 0, 1]]), "auto_pad": None}
         if rng.random() < 0.25:
             attrs["pads"] = None
-            attrs["auto_pad"] = rng.choice(["SAME_UPPER", "SAME_LOWER", "VALID"])
+            attrs["auto_pad"] = rng.choice(["SAME_UPPER", "VALID"])  # (SAME_LOWER: onnx.reference pads differently from onnxruntime at every version)
         if ver >= 10:
             attrs["ceil_mode"] = rng.choice([None, 0, 1])
         if opn == "AveragePool":
